@@ -2,6 +2,7 @@ package j5schema
 
 import (
 	"fmt"
+	"sync"
 
 	"github.com/pentops/j5/gen/j5/ext/v1/ext_j5pb"
 	"google.golang.org/protobuf/proto"
@@ -9,7 +10,12 @@ import (
 )
 
 // SchemaCache acts like PackageSet, but builds schemas on demand from reflection.
+//
+// A SchemaCache is safe for concurrent use: Schema holds mu for the whole of a
+// build, including the nested schemas it registers, so that no other caller
+// can observe a placeholder which is not linked yet.
 type SchemaCache struct {
+	mu       sync.Mutex
 	packages map[string]*Package
 }
 
@@ -21,6 +27,14 @@ func NewSchemaCache() *SchemaCache {
 
 // Schema returns the J5 schema for the given message descriptor.
 func (sc *SchemaCache) Schema(src protoreflect.MessageDescriptor) (RootSchema, error) {
+	sc.mu.Lock()
+	defer sc.mu.Unlock()
+	return sc.schemaLocked(src)
+}
+
+// schemaLocked is Schema with sc.mu held. Building recurses into refTo and
+// referencePackage, which expect the lock to be held by the caller.
+func (sc *SchemaCache) schemaLocked(src protoreflect.MessageDescriptor) (RootSchema, error) {
 	packageName, nameInPackage := splitDescriptorName(src)
 	schemaPackage := sc.referencePackage(packageName)
 	if built, ok := schemaPackage.Schemas[nameInPackage]; ok {
@@ -55,6 +69,7 @@ func (sc *SchemaCache) Schema(src protoreflect.MessageDescriptor) (RootSchema, e
 	return placeholder.To, nil
 }
 
+// refTo is called while building, with sc.mu held.
 func (sc *SchemaCache) refTo(pkg, schema string) (*RefSchema, bool) {
 	refPackage := sc.referencePackage(pkg)
 	if existing, ok := refPackage.Schemas[schema]; ok {
@@ -70,6 +85,7 @@ func (sc *SchemaCache) refTo(pkg, schema string) (*RefSchema, bool) {
 	return refSchema, false
 }
 
+// referencePackage is called while building, with sc.mu held.
 func (sc *SchemaCache) referencePackage(name string) *Package {
 	if existing, ok := sc.packages[name]; ok {
 		return existing
